@@ -183,12 +183,15 @@ func checkC12(c C12Case, env *Env) *Violation {
 		}
 		occs := append([]*reflua.Occ{}, inf.bind.Occs...)
 		for _, gf := range inf.bind.GFields {
+			if isLibSpelling(gf.Text) {
+				continue // _G.print, _G.type, _G.next ...: library names
+			}
 			// `_G.name`: a position on the global `name`
 			occs = append(occs, &reflua.Occ{Name: gf, Kind: reflua.ORead})
 			env.Stats.Class("pos-G-qualified")
 		}
 		for _, o := range occs {
-			if o.Name.Off == o.Name.End || dcName(o.Name.Text) || (o.Decl != nil && o.Decl.Kind == reflua.DSelf) {
+			if o.Name.Off == o.Name.End || dcOcc(o) || (o.Decl != nil && o.Decl.Kind == reflua.DSelf) {
 				continue
 			}
 			if (gate("c05-bracket-quote") && kfBracketQuote(f.Text, o.Name.Off)) || (gate("c05-glued-bracket") && kfGluedBracket(f.Text, o.Name.Off)) {
@@ -199,7 +202,7 @@ func checkC12(c C12Case, env *Env) *Violation {
 				excludedIn(env)
 				continue
 			}
-			if !generated && gate("c05-same-name-init") && (o.InInitOfSameName || o.InForBoundsOfSameName) {
+			if gate("c05-same-name-init") && (o.InAssignOfSameName || (!generated && (o.InInitOfSameName || o.InForBoundsOfSameName))) {
 				excludedIn(env)
 				continue
 			}
@@ -287,7 +290,9 @@ func checkC12(c C12Case, env *Env) *Violation {
 			fs = append(fs, follow{qi, "def-of-ref", r, len(req2.Steps)})
 			req2.Steps = append(req2.Steps, harness.Call("textDocument/definition", harness.TDPos(r.File, r.SL, r.SC)))
 		}
-		if len(D) > 0 {
+		if len(D) > 0 && gate("c05-bracket-quote") && kfBracketQuoteAt(&c.WS, D[0]) {
+			excludedIn(env) // known finding C05-F3 at the declaration's own position
+		} else if len(D) > 0 {
 			d := D[0]
 			fs = append(fs, follow{qi, "refs-of-def", d, len(req2.Steps)})
 			req2.Steps = append(req2.Steps, harness.Call("textDocument/references", refParams(d.File, d.SL, d.SC)))
